@@ -374,14 +374,16 @@ impl<'de, R: Reader<'de>> Deserializer<R> {
             } else {
                 (val.parse_with_padding(json, cfg)?, json.len())
             };
-            self.parser.read.eat(n);
             // The in-place parser runs on a private copy terminated by the `x"x` padding and
             // does not validate UTF-8.  `from_slice`/`from_str` catch both afterwards (trailing
             // check and deferred UTF-8 error), but `Deserializer::deserialize` and streams do
             // not, so check here: the value must end inside the input and be valid UTF-8.
             if n > len {
+                // never leave the reader beyond its input: later calls compute `len - index`
+                self.parser.read.eat(len);
                 return Err(self.parser.error(ErrorCode::EofWhileParsing));
             }
+            self.parser.read.eat(n);
             if !cfg.utf8_lossy && self.parser.read.next_invalid_utf8() < n {
                 return Err(self.parser.read.check_utf8_final().unwrap_err());
             }
